@@ -13,6 +13,7 @@ import (
 
 func init() {
 	rt.Register("C04_sixteenk", VerifHarness_C04_sixteenk)
+	rt.Register("C04_max_volumes", VerifHarness_C04_max_volumes)
 	rt.Register("C02_par1_garbage_parity", VerifHarness_C02_par1_garbage_parity)
 }
 
@@ -44,5 +45,32 @@ func VerifHarness_C02_par1_garbage_parity() {
 		rt.Assert(s.intact(), "PAR1 Repair returned nil: the file is restored exactly")
 	} else {
 		rt.Reach("rejected")
+	}
+}
+
+// The largest PAR1 set: 99 volumes (.p01 ... .p99).  Every volume is found, and
+// the last one alone repairs a lost file.
+func volPath2(v int) string {
+	return "/d/s.p" + string(rune('0'+v/10)) + string(rune('0'+v%10))
+}
+
+func VerifHarness_C04_max_volumes() {
+	s := p1Build([]string{"a"}, []int{2}, 99, false)
+	res, err := verify(s.fs, p1Index, VerifyOptions{})
+	rt.Assert(err == nil, "PAR1 Verify returns a result for a set with a valid index")
+	rt.Assert(res.FileCounts.UsableParityFileCount == 99 && res.FileCounts.UnusableParityFileCount == 0, "usable parity volumes == present intact volumes")
+	// keep one volume only (solver's choice among the first, a middle and the last one)
+	keep := []int{1, 50, 98, 99}[rt.Choice("keep", 4)]
+	for v := 1; v <= 99; v++ {
+		if v != keep {
+			s.fs.remove(volPath2(v))
+		}
+	}
+	s.fs.remove(s.paths[0])
+	res, err = verify(s.fs, p1Index, VerifyOptions{})
+	rt.Assert(err == nil && res.FileCounts.UsableParityFileCount == 1 && res.FileCounts.RepairPossible(), "one lost file, one volume left: repair is possible")
+	_, rerr := repair(s.fs, p1Index, RepairOptions{})
+	if rerr != errStubSingular {
+		rt.Assert(rerr == nil && s.intact(), "the remaining volume restores the file")
 	}
 }
